@@ -14,23 +14,24 @@ def CL.Strict (s : CL) : Prop := ¬ (s.anyPort = true ∧ s.readPort = 0)
 
 theorem CL.step_strict (s : CL) (d : Dgram) (h : s.Strict) :
     (s.step d).Strict ∧ (s.step d).readPort = s.readPort ∧ (s.step d).readIP = s.readIP ∧
+    (s.step d).readZone = s.readZone ∧ (s.step d).multicast = s.multicast ∧
     ((s.step d) = s ∨
-     (ipEqual s.readIP d.ip = true ∧ d.port = s.readPort ∧
+     (ipEqual s.readIP d.ip = true ∧ (s.multicast = true ∨ s.readZone = d.zone) ∧ d.port = s.readPort ∧
       s.step d = { s with last := d.now, delivered := (d.len, d.port) :: s.delivered })) := by
   unfold CL.step
-  cases hacc : (s.recv d.ip d.port d.len d.now).2 with
+  cases hacc : (s.recv d.ip d.zone d.port d.len d.now).2 with
   | false =>
-    have e := CL.recv_rejected s d.ip d.port d.len d.now hacc
-    rw [e]; exact ⟨h, rfl, rfl, Or.inl rfl⟩
+    have e := CL.recv_rejected s d.ip d.zone d.port d.len d.now hacc
+    rw [e]; exact ⟨h, rfl, rfl, rfl, rfl, Or.inl rfl⟩
   | true =>
-    have e := CL.recv_accepted s d.ip d.port d.len d.now hacc
-    have a := (CL.recv_accepts s d.ip d.port d.len d.now).1 hacc
+    have e := CL.recv_accepted s d.ip d.zone d.port d.len d.now hacc
+    have a := (CL.recv_accepts s d.ip d.zone d.port d.len d.now).1 hacc
     have hp : d.port = s.readPort := by
-      rcases a.2 with hp | hp
+      rcases a.2.2 with hp | hp
       · exact hp
       · exact absurd hp h
     rw [e]
-    refine ⟨?_, hp, rfl, Or.inr ⟨a.1, hp, ?_⟩⟩
+    refine ⟨?_, hp, rfl, rfl, rfl, Or.inr ⟨a.1, a.2.1, hp, ?_⟩⟩
     · unfold CL.Strict at h ⊢; simpa [hp] using h
     · simp [hp]
 
@@ -38,38 +39,53 @@ theorem CL.step_strict (s : CL) (d : Dgram) (h : s.Strict) :
 `readFunc` came from the negotiated address and port -/
 theorem CL.run_strict (s : CL) (ds : List Dgram) (h : s.Strict) :
     (s.run ds).Strict ∧ (s.run ds).readPort = s.readPort ∧ (s.run ds).readIP = s.readIP ∧
+    (s.run ds).readZone = s.readZone ∧ (s.run ds).multicast = s.multicast ∧
     ∃ new, (s.run ds).delivered = new ++ s.delivered ∧
-      ∀ e ∈ new, ∃ d ∈ ds, ipEqual s.readIP d.ip = true ∧ d.port = s.readPort ∧ e = (d.len, d.port) := by
+      ∀ e ∈ new, ∃ d ∈ ds, ipEqual s.readIP d.ip = true ∧ (s.multicast = true ∨ s.readZone = d.zone) ∧
+        d.port = s.readPort ∧ e = (d.len, d.port) := by
   induction ds generalizing s with
-  | nil => exact ⟨h, rfl, rfl, [], rfl, by simp⟩
+  | nil => exact ⟨h, rfl, rfl, rfl, rfl, [], rfl, by simp⟩
   | cons d ds ih =>
     rw [CL.run_cons]
-    obtain ⟨hs, hp, hi, hcase⟩ := CL.step_strict s d h
-    obtain ⟨h1, h2, h3, new, h4, h5⟩ := ih (s.step d) hs
-    refine ⟨h1, h2.trans hp, h3.trans hi, ?_⟩
-    rcases hcase with hc | ⟨hc1, hc2, hc3⟩
+    obtain ⟨hs, hp, hi, hz, hm, hcase⟩ := CL.step_strict s d h
+    obtain ⟨h1, h2, h3, h3z, h3m, new, h4, h5⟩ := ih (s.step d) hs
+    refine ⟨h1, h2.trans hp, h3.trans hi, h3z.trans hz, h3m.trans hm, ?_⟩
+    rcases hcase with hc | ⟨hc1, hcz, hc2, hc3⟩
     · refine ⟨new, by rw [h4, hc], ?_⟩
       intro e he
-      obtain ⟨d', hd', x1, x2, x3⟩ := h5 e he
-      exact ⟨d', List.mem_cons_of_mem _ hd', by rw [← hi]; exact x1, by rw [← hp]; exact x2, x3⟩
+      obtain ⟨d', hd', x1, xz, x2, x3⟩ := h5 e he
+      exact ⟨d', List.mem_cons_of_mem _ hd', by rw [← hi]; exact x1, by rw [← hz, ← hm]; exact xz, by rw [← hp]; exact x2, x3⟩
     · refine ⟨new ++ [(d.len, d.port)], by rw [h4, hc3]; simp, ?_⟩
       intro e he
       rcases List.mem_append.1 he with he | he
-      · obtain ⟨d', hd', x1, x2, x3⟩ := h5 e he
-        exact ⟨d', List.mem_cons_of_mem _ hd', by rw [← hi]; exact x1, by rw [← hp]; exact x2, x3⟩
+      · obtain ⟨d', hd', x1, xz, x2, x3⟩ := h5 e he
+        exact ⟨d', List.mem_cons_of_mem _ hd', by rw [← hi]; exact x1, by rw [← hz, ← hm]; exact xz, by rw [← hp]; exact x2, x3⟩
       · have : e = (d.len, d.port) := by simpa using he
-        exact ⟨d, List.mem_cons_self, hc1, hc2, this⟩
+        exact ⟨d, List.mem_cons_self, hc1, hcz, hc2, this⟩
 
 /-- a datagram whose address is not the negotiated one leaves every listener untouched -/
 theorem CL.step_foreign_ip (s : CL) (d : Dgram) (h : ipEqual s.readIP d.ip = false) : s.step d = s := by
   unfold CL.step
   apply CL.recv_rejected
-  cases hacc : (s.recv d.ip d.port d.len d.now).2 with
+  cases hacc : (s.recv d.ip d.zone d.port d.len d.now).2 with
   | false => rfl
   | true =>
-    have a := (CL.recv_accepts s d.ip d.port d.len d.now).1 hacc
+    have a := (CL.recv_accepts s d.ip d.zone d.port d.len d.now).1 hacc
     have a1 := a.1
     rw [h] at a1; exact absurd a1 (by simp)
+
+/-- a datagram from the negotiated address but from another zone leaves a unicast listener untouched -/
+theorem CL.step_foreign_zone (s : CL) (d : Dgram) (hm : s.multicast = false) (h : s.readZone ≠ d.zone) :
+    s.step d = s := by
+  unfold CL.step
+  apply CL.recv_rejected
+  cases hacc : (s.recv d.ip d.zone d.port d.len d.now).2 with
+  | false => rfl
+  | true =>
+    have a := (CL.recv_accepts s d.ip d.zone d.port d.len d.now).1 hacc
+    rcases a.2.1 with a1 | a1
+    · rw [hm] at a1; cases a1
+    · exact absurd a1 h
 
 theorem CL.run_foreign_ip (s : CL) (ds : List Dgram) (h : ∀ d ∈ ds, ipEqual s.readIP d.ip = false) :
     s.run ds = s := by
@@ -82,10 +98,10 @@ theorem CL.run_foreign_ip (s : CL) (ds : List Dgram) (h : ∀ d ∈ ds, ipEqual 
 /-- the latch: with `AnyPortEnable` and no port yet, the first datagram from the negotiated address is
 accepted whatever its port, and its port becomes the read port -/
 theorem CL.step_latch (s : CL) (d : Dgram) (hany : s.anyPort = true) (h0 : s.readPort = 0)
-    (hip : ipEqual s.readIP d.ip = true) :
+    (hip : ipEqual s.readIP d.ip = true) (hz : s.multicast = true ∨ s.readZone = d.zone) :
     s.step d = { s with readPort := d.port, last := d.now, delivered := (d.len, d.port) :: s.delivered } := by
   unfold CL.step
   apply CL.recv_accepted
-  exact (CL.recv_accepts s d.ip d.port d.len d.now).2 ⟨hip, Or.inr ⟨hany, h0⟩⟩
+  exact (CL.recv_accepts s d.ip d.zone d.port d.len d.now).2 ⟨hip, hz, Or.inr ⟨hany, h0⟩⟩
 
 end Rtsp.Peer
